@@ -127,19 +127,16 @@ fn play_stereo() {
     all_splits(true);
 }
 
-/// C15, VTX header + strings block: any byte string of <= 48 bytes (truncated headers, missing
-/// string terminators, zero player frequency, huge size fields) gives Ok or Err - no panic, no
-/// endless loop. BOUNDED: 48 bytes; the LH5 payload is excluded (declared frame size 0 or the
-/// loader fails before decoding): delharc internals are out of reach.
-#[kani::proof]
-#[kani::unwind(50)]
-fn vtx_load_header() {
-    let data: [u8; 48] = kani::any();
-    let len: usize = kani::any();
-    kani::assume(len <= 48);
-    // either the declared decompressed size is 0 (nothing to decode) ...
-    let size = (data[12] as u32) | ((data[13] as u32) << 8) | ((data[14] as u32) << 16) | ((data[15] as u32) << 24);
-    kani::assume(size == 0 || size > 64 * 1024 * 1024 || size % 14 != 0);
+/// C15, VTX header + strings block: every byte string of the enumerated lengths (truncated
+/// headers, missing string terminators, zero player frequency, huge size fields) gives Ok or
+/// Err - no panic, no endless loop. BOUNDED: <= 24 bytes, lengths enumerated; the LH5 payload is
+/// excluded (declared frame size 0 or the loader fails before decoding): delharc internals and
+/// String::from_utf8_lossy (stubbed: the strings are not part of any property) are out of reach.
+fn lossy_stub(_v: &[u8]) -> std::borrow::Cow<'_, str> {
+    std::borrow::Cow::Borrowed("")
+}
+
+fn vtx_header_case(data: &[u8; 24], len: usize) -> bool {
     let r = Vtx::load(std::io::Cursor::new(&data[..len]));
     if let Ok(v) = &r {
         kani::assert(v.player_frequency != 0, "C15/C20: a loaded track never has player frequency 0");
@@ -148,6 +145,26 @@ fn vtx_load_header() {
     if len < 16 {
         kani::assert(r.is_err(), "C15: truncated VTX header is an error");
     }
-    kani::cover!(r.is_ok());
-    kani::cover!(r.is_err());
+    r.is_ok()
+}
+
+#[kani::proof]
+#[kani::unwind(30)]
+#[kani::stub(std::string::String::from_utf8_lossy, lossy_stub)]
+fn vtx_load_header() {
+    let data: [u8; 24] = kani::any();
+    // either the declared decompressed size is 0 (nothing to decode) or the header is rejected
+    let size = (data[12] as u32) | ((data[13] as u32) << 8) | ((data[14] as u32) << 16) | ((data[15] as u32) << 24);
+    kani::assume(size == 0 || size > 64 * 1024 * 1024 || size % 14 != 0);
+    let lens: [usize; 9] = [0, 1, 2, 3, 15, 16, 20, 21, 24];
+    let mut i = 0;
+    let mut any_ok = false;
+    while i < 9 {
+        if vtx_header_case(&data, lens[i]) {
+            any_ok = true;
+        }
+        i += 1;
+    }
+    kani::cover!(any_ok);
+    kani::cover!(!any_ok);
 }
